@@ -41,7 +41,9 @@ RULE = ('a case is one (XSD version, declaration set [plain type, or the content
         'reported, an attribute is resolved through the wildcard or the xsi fallback, a fixed value is compared, a '
         'fixed/default value is injected, a prohibited declaration is met; distinct by canonical JSON of (version, built '
         'group, attributes).  Further cases: every lexical form of the type correspondence (catalogue type x generated '
-        'text) and the witnesses of the _counterexample theorems')
+        'text), the witnesses of the _counterexample theorems, and the systematic wildcard family (every ordered pair of '
+        'wildcard constraint forms in the group/group, local/group, local/base positions, one instance per probe name '
+        'of every namespace region incl. the absent namespace)')
 TRUSTED = ['the simple types are a concrete Lean model for the 9 catalogue types (Model/AttrTypes.lean: int, decimal, '
            'string, boolean, token, int restricted by maxInclusive, anySimpleType, QName with namespace context, list of '
            'int) tied to the real type objects by `run_types` (validity, decoded value, the text_decode equality of the '
@@ -1402,12 +1404,14 @@ def wild_family(ctx: Ctx, drv: Optional[Driver], tmp: Path) -> None:
     for v11 in (False, True):
         cs = wildcard_constraints(v11)
         ver = '1.1' if v11 else '1.0'
-        for c1 in cs:
-            for c2 in cs:
-                kinds = ['gg', 'gl']
-                if ctx.rng.random() < ctx.pick(0.12, 1.0):
+        for i1, c1 in enumerate(cs):
+            for i2, c2 in enumerate(cs):
+                # quick tier: each ordered pair gets one of the two intersection positions (which one depends on
+                # the seed; a form that misbehaves as receiver meets several partners, so both positions see it)
+                kinds = ['gg', 'gl'] if not ctx.quick() else [['gg', 'gl'][(i1 + i2 + ctx.seed) % 2]]
+                if ctx.rng.random() < ctx.pick(0.08, 1.0):
                     kinds.append('ext')
-                if ctx.rng.random() < ctx.pick(0.05, 0.5):
+                if ctx.rng.random() < ctx.pick(0.04, 0.5):
                     kinds.append('restr')
                 for kind in kinds:
                     pc1, pc2 = ctx.rng.choice(PCS), ctx.rng.choice(PCS)
